@@ -784,6 +784,21 @@ func c18Edges(c *Ctx, e *c18Env) {
 			r.Header.Set("Grpc-Timeout", "50m")
 			serveOn(fx.Mux, r)
 		}, "/" + fxPkg + ".Svc/U"},
+		{"grpc-web: a malformed grpc-timeout header", func() {
+			b, _ := proto.Marshal(c18Req(fx, "ok", "", 0))
+			r := httptest.NewRequest("POST", "/"+fxPkg+".Svc/U", bytes.NewReader(grpcFrame(0, b)))
+			r.Header.Set("Content-Type", "application/grpc-web+proto")
+			r.Header.Set("Grpc-Timeout", "soon")
+			serveOn(fx.Mux, r)
+		}, "/" + fxPkg + ".Svc/U"},
+		{"grpc: a malformed grpc-timeout header (unit missing)", func() {
+			b, _ := proto.Marshal(c18Req(fx, "ok", "", 0))
+			r := httptest.NewRequest("POST", "/"+fxPkg+".Svc/U", bytes.NewReader(grpcFrame(0, b)))
+			r.Header.Set("Content-Type", "application/grpc+proto")
+			r.Header.Set("Grpc-Timeout", "123456789")
+			r.ProtoMajor, r.ProtoMinor = 2, 0
+			serveOn(fx.Mux, r)
+		}, "/" + fxPkg + ".Svc/U"},
 		{"grpc: the client goes away while the handler runs", func() {
 			ctx, cancel := context.WithCancel(context.Background())
 			go func() { time.Sleep(40 * time.Millisecond); cancel() }()
